@@ -125,8 +125,8 @@ func isLibraryType(t reflect.Type) bool {
 
 // blame finds the deepest library component on the path to a difference that has its own decoder and strictly
 // contains the difference: the mis-decoded field is then reported against that component type, so that a defect
-// of rlwe.CiphertextMetaData is one signature and not one per container. A nil/non-nil mismatch of a pointer
-// is the container's business (presence flags), a length mismatch of a map/slice the component's own.
+// of rlwe.CiphertextMetaData is one signature and not one per container. A difference AT a component (nil vs
+// non-nil, number of entries) is attributed to what contains it: presence flags and counts are read there.
 func blame(top reflect.Type, p []step) (subject string, rel string) {
 	last := -1
 	for i, st := range p {
@@ -141,8 +141,8 @@ func blame(top reflect.Type, p []step) (subject string, rel string) {
 		if !(pt.Implements(readerFromT) || pt.Implements(jsonUnmarshT)) {
 			continue
 		}
-		if i == len(p)-1 && st.t.Kind() == reflect.Ptr {
-			continue
+		if i == len(p)-1 {
+			continue // the difference is the component as a whole (presence, length): its container's business
 		}
 		last = i
 	}
